@@ -25,7 +25,8 @@ the code as it is; patches in `/verif/.cache/C38-fix`, oracle switch `fixesDefau
 repaired variants.
 
 What is **not** modelled (parameters, `Ext`): the template engine and the YAML text itself.  How
-yaml.v3 reads an unquoted scalar (`Ext.yaml`), `time.ParseDuration` (`Ext.dur`), decimal printing
+yaml.v3 reads an unquoted scalar (`Ext.yaml`: as the same string, as a *different* string — a plain
+scalar loses its leading and trailing blanks —, or as a non-string), `time.ParseDuration` (`Ext.dur`), decimal printing
 (`Ext.fmtNat`) and `strings.ToLower` (`Ext.lower`) are functions supplied per case by the harness
 (`ext` lines) and universally quantified in the theorems.  Integers are naturals (negative
 settings are not valid v1 values and are not generated); `int64`/`float64` overflow is ignored.
@@ -62,7 +63,9 @@ structure Fixes where
 
 /-- How yaml.v3 resolves a text written without quotes. -/
 inductive YTag where
-  | str | int | bool | null | float | other | err
+  | str                     -- the same string
+  | diff (t : String)       -- a *different* string: a plain scalar is trimmed ("s3cret " ↦ "s3cret"), ...
+  | int | bool | null | float | other | err
   deriving DecidableEq, Repr
 
 /-- External functions (parameters of the model). -/
@@ -419,18 +422,37 @@ inductive YV where
   | bad
   deriving DecidableEq, Repr
 
+/-- reading a text written WITHOUT quotes: the string itself, or whatever other string YAML makes of
+it (leading / trailing blanks of a plain scalar are stripped), or not a string at all -/
+def readPlain (x : Ext) (s : String) : Option String :=
+  match x.yaml s with
+  | .str => some s
+  | .diff t => some t
+  | _ => none
+
+/-- reading a text written through `yamlf` (second component: was it quoted) -/
+def readText (x : Ext) (p : String × Bool) : Option String :=
+  if p.2 then some p.1 else readPlain x p.1
+
+def allSome {α : Type} : List (Option α) → Option (List α)
+  | [] => some []
+  | none :: _ => none
+  | some a :: t => match allSome t with | some l => some (a :: l) | none => none
+
 def yamlOf (x : Ext) : V2 → YV
-  | .text s true => .str s
-  | .text s false => if x.yaml s = .str then .str s else .bad
+  | .text s q => match readText x (s, q) with | some t => .str t | none => .bad
   | .num n => .int n
   | .bool b => .bool b
   | .dur ns => .durtext ns
   | .mem q u => .memtext (q * u)
-  | .items l => if l.all (fun s => x.yaml s == .str) then .strs l else .bad
-  | .qitems l => if l.all (fun p => p.2 || x.yaml p.1 == .str) then .strs (l.map (·.1)) else .bad
+  | .items l => match allSome (l.map (readPlain x)) with | some l' => .strs l' | none => .bad
+  | .qitems l => match allSome (l.map (readText x)) with | some l' => .strs l' | none => .bad
   | .table l =>
-    if l.all (fun p => (p.1.2 || x.yaml p.1.1 == .str) && (p.2.2 || x.yaml p.2.1 == .str))
-    then .tbl (l.map fun p => (p.1.1, p.2.1)) else .bad
+    match allSome (l.map fun p => match readText x p.1, readText x p.2 with
+        | some k, some v => some (k, v)
+        | _, _ => none) with
+    | some kv => .tbl kv
+    | none => .bad
   | .junk => .bad
 
 /-- `validateDatatype` + decode into the config struct. -/
